@@ -2,7 +2,7 @@
    T0 {c1} T1 {c2} T2 ... (Spec/TextBody.v), described by [shape2]. *)
 From Soy Require Import Model.Bytes Model.Utf8 Model.Outcome Model.Token Generated.Tables Model.Lexer Spec.Text Spec.TextBody
   Proofs.LexerPrim Proofs.LexerStates Proofs.LexerProofs Proofs.LexTokens Proofs.LexPrintTop
-  Proofs.LexBodyText Proofs.LexBodyTop Proofs.LexBodySeg Proofs.LexBodyCmd.
+  Proofs.LexBodyText Proofs.LexBodyTop Proofs.LexBodySeg Proofs.LexBodyCmd Proofs.LexBodyLit.
 From Coq Require Import ZifyBool ZifyNat ZifyN Lia.
 Open Scope Z_scope.
 
@@ -12,7 +12,11 @@ Inductive shape2 : bstr -> list seg -> list tok -> Prop :=
 | s2_end T txt e : is_text_of T txt -> t_typ e = itemEOF -> shape2 T [] (txt ++ [e])
 | s2_cmd T txt n o T' rest ld c rd items :
     is_text_of T txt -> t_typ ld = itemLeftDelim -> assoc (t_typ c) parser_special_chars = Some o -> t_typ rd = itemRightDelim ->
-    shape2 T' rest items -> shape2 T (((n, o), T') :: rest) (txt ++ ld :: c :: rd :: items).
+    shape2 T' rest items -> shape2 T (((n, o), T') :: rest) (txt ++ ld :: c :: rd :: items)
+| s2_lit T txt n o T' rest ld kw rd tx ld2 ke rd2 items :
+    is_text_of T txt -> t_typ ld = itemLeftDelim -> t_typ kw = itemLiteral -> t_typ rd = itemRightDelim ->
+    t_typ tx = itemText -> t_val tx = o -> t_typ ld2 = itemLeftDelim -> t_typ ke = itemLiteralEnd -> t_typ rd2 = itemRightDelim ->
+    shape2 T' rest items -> shape2 T (((n, o), T') :: rest) (txt ++ ld :: kw :: rd :: tx :: ld2 :: ke :: rd2 :: items).
 
 Section Main.
 Variable uni_letter uni_digit : Z -> bool.
@@ -47,17 +51,30 @@ Proof.
                 (rest_src_tag _) (fun _ => eq_refl) ltac:(intros E; congruence) Hpc) as (st' & l1 & Hrun & _ & (txt & Htx & Hdd1 & Hres)).
     destruct Hres as [(A & _)|(_ & -> & Ho1 & Hs1 & _)]; [discriminate A|].
     cbn [rest_src] in Hs1.
-    destruct (lex_special_cmd uni_letter uni_digit letter_ascii digit_ascii letter_eof digit_eof inp l1 n o (T' ++ rest_src r) Hcmd Hs1)
-      as (k2 & l2 & ld & c & rd & Hst2 & Hs2 & Ho2 & Hld & Hrd & Hc & Hla2 & Hv2 & Hdd2).
-    assert (Hpw : pwof 0 l2 = false).
-    { unfold pwof. rewrite Hla2, Hv2. reflexivity. }
-    destruct (IH T' l2 Hs2 Hdd2 ltac:(rewrite Hpw; exact Hok') Hrest') as (k3 & l3 & items & Hst3 & Ho3 & Hsh).
-    exists (1 + (k2 + k3))%nat, l3, (txt ++ ld :: c :: rd :: items). split.
-    { assert (H1 : steps 1 LText l = Ok (LLeftDelim, l1)) by (apply steps_one; exact Hrun).
-      rewrite (steps_app _ _ _ _ 1 _ _ _ _ _ H1), (steps_app _ _ _ _ k2 _ _ _ _ _ Hst2). exact Hst3. }
-    split.
-    { rewrite Ho3, Ho2, Ho1, rev_app_distr. cbn [rev]. rewrite <- !app_assoc. reflexivity. }
-    eapply s2_cmd; eassumption.
+    destruct Hcmd as [Hcmd|[Hname Hcl]].
+    + destruct (lex_special_cmd uni_letter uni_digit letter_ascii digit_ascii letter_eof digit_eof inp l1 n o (T' ++ rest_src r) Hcmd Hs1)
+        as (k2 & l2 & ld & c & rd & Hst2 & Hs2 & Ho2 & Hld & Hrd & Hc & Hla2 & Hv2 & Hdd2).
+      assert (Hpw : pwof 0 l2 = false).
+      { unfold pwof. rewrite Hla2, Hv2. reflexivity. }
+      destruct (IH T' l2 Hs2 Hdd2 ltac:(rewrite Hpw; exact Hok') Hrest') as (k3 & l3 & items & Hst3 & Ho3 & Hsh).
+      exists (1 + (k2 + k3))%nat, l3, (txt ++ ld :: c :: rd :: items). split.
+      { assert (H1 : steps 1 LText l = Ok (LLeftDelim, l1)) by (apply steps_one; exact Hrun).
+        rewrite (steps_app _ _ _ _ 1 _ _ _ _ _ H1), (steps_app _ _ _ _ k2 _ _ _ _ _ Hst2). exact Hst3. }
+      split.
+      { rewrite Ho3, Ho2, Ho1, rev_app_distr. cbn [rev]. rewrite <- !app_assoc. reflexivity. }
+      eapply s2_cmd; eassumption.
+    + cbn [fst snd] in Hname, Hcl. subst n.
+      destruct (lex_literal_cmd uni_letter uni_digit letter_ascii digit_ascii letter_eof digit_eof inp l1 o (T' ++ rest_src r) Hs1 Hcl)
+        as (k2 & l2 & ld & kw & rd & tx & ld2 & ke & rd2 & Hst2 & Hs2 & Ho2 & A1 & A2 & A3 & A4 & A5 & A6 & A7 & A8 & Hla2 & Hv2 & Hdd2).
+      assert (Hpw : pwof 0 l2 = false).
+      { unfold pwof. rewrite Hla2, Hv2. reflexivity. }
+      destruct (IH T' l2 Hs2 Hdd2 ltac:(rewrite Hpw; exact Hok') Hrest') as (k3 & l3 & items & Hst3 & Ho3 & Hsh).
+      exists (1 + (k2 + k3))%nat, l3, (txt ++ ld :: kw :: rd :: tx :: ld2 :: ke :: rd2 :: items). split.
+      { assert (H1 : steps 1 LText l = Ok (LLeftDelim, l1)) by (apply steps_one; exact Hrun).
+        rewrite (steps_app _ _ _ _ 1 _ _ _ _ _ H1), (steps_app _ _ _ _ k2 _ _ _ _ _ Hst2). exact Hst3. }
+      split.
+      { rewrite Ho3, Ho2, Ho1, rev_app_distr. cbn [rev]. rewrite <- !app_assoc. reflexivity. }
+      eapply s2_lit; eassumption.
 Qed.
 
 End Main.
